@@ -127,9 +127,9 @@ def cases_from(results_by_set, maxops, min_ops=0):
     return cases, cnt
 
 
-RZ_B0 = {"quick": 6, "thorough": 8}
-RZ_PICK = {"quick": 6, "thorough": 12}
-RZ_MAX = {"quick": 360, "thorough": 4000}
+RZ_B0 = {"quick": 5, "thorough": 7}
+RZ_PICK = {"quick": 6, "thorough": 10}
+RZ_MAX = {"quick": 300, "thorough": 1500}
 
 
 def realize_cases(cases, tier, seed, skip):
